@@ -27,7 +27,7 @@ def one(j):
         r = subprocess.run(["go", "build", "./..."], cwd=s, env=ENV, capture_output=True, text=True)
         if r.returncode != 0:
             return j, "nobuild", ""
-        r = subprocess.run([os.path.join(HERE, "bin", "otterlint"), "-property", "ALL", "-repo", s, "-verif", HERE, "-no-evidence"], capture_output=True, text=True, env=ENV)
+        r = subprocess.run([os.environ.get("OTTERLINT", os.path.join(HERE, "bin", "otterlint")), "-property", "ALL", "-repo", s, "-verif", HERE, "-no-evidence"], capture_output=True, text=True, env=ENV)
         rules = sorted({l.split(": ")[1] for l in r.stdout.split("\n") if ": C" in l and not l.startswith(("VIOLATION", "KNOWN")) and "(" in l})
         if r.returncode == 2:
             return j, "broken", r.stderr[-200:].replace("\n", " ")
